@@ -189,3 +189,34 @@ Theorem C04_lumping_single_locus_unbounded :
               (levents1 (length config) x).
 Proof. exact lumping_single_locus_unbounded. Qed.
 Print Assumptions C04_lumping_single_locus_unbounded.
+
+(* ---- the tie to phasegen/state_space.py by translation (gen/TransitionGen.v is regenerated from the class Transition
+        of the source on every run; proofs/GenTransitionEquiv.v proves it equal to the model) ---- *)
+From PG Require Import gen.NpTrans gen.TransitionGen proofs.GenTransitionEquiv proofs.SourceLumping.
+
+Theorem C04_state_space_py_transit_is_the_model_single_locus :
+  forall (n nl : nat) (P : params (T:=R)) (s : state),
+    nl = n_loci s -> n_loci s = 1%nat -> same_loci s ->
+    Transition_transit OpsR n nl P s = transit OpsR P s.
+Proof. exact (gen_transit_single_locus OpsR). Qed.
+Print Assumptions C04_state_space_py_transit_is_the_model_single_locus.
+
+Theorem C04_state_space_py_transit_is_the_model_two_loci :
+  forall (n nl : nat) (P : params (T:=R)) (s : state),
+    nl = n_loci s -> n_loci s = 2%nat -> p_lc P = true -> same_loci s ->
+    rows1 (lin s) -> rows1 (lnk s) -> n_blocks s = 1%nat ->
+    Transition_transit OpsR n nl P s = transit OpsR P s.
+Proof. exact (gen_transit_two_loci OpsR). Qed.
+Print Assumptions C04_state_space_py_transit_is_the_model_two_loci.
+
+(* the unbounded lumping theorem with the TRANSLATED SOURCE in place of the model *)
+Theorem C04_state_space_py_lumping_single_locus_unbounded :
+  forall (n : nat) (P : params (T:=R)) (config : list nat) (x : lstate),
+    reach (targets_of (levents1 (length config))) (linit config) x ->
+  forall t : state,
+    rate_of (Transition_transit OpsR n 1 P (pi1 (p_lc P) (length config) (sum_nat config) x)) t =
+    rsum_over (fun ey => if state_eqb (pi1 (p_lc P) (length config) (sum_nat config) (snd ey)) t
+                         then erate OpsR P (fst ey) else 0%R)
+              (levents1 (length config) x).
+Proof. exact source_lumping_single_locus_unbounded. Qed.
+Print Assumptions C04_state_space_py_lumping_single_locus_unbounded.
